@@ -97,6 +97,49 @@ def observe(argv, cwd):
     return rc, eff, err.getvalue()
 
 
+SENSITIVE_DOC = ("# **Bold heading**\n\nHe said \"hello\" and waited... then left. A second sentence follows here that is long enough to be "
+                 "wrapped somewhere around the fifty-fifth column of the page.\n\n- one\n\n- two\n\n1. a\n2. b\n")
+EQUIV = [("width", ["-w", "55"], 55), ("semantic", ["-s"], True), ("cleanups", ["-c"], True), ("smartquotes", ["--smartquotes"], True),
+         ("ellipses", ["--ellipses"], True), ("list_spacing", ["--list-spacing", "tight"], "tight"),
+         ("list_spacing", ["--list-spacing", "loose"], "loose"), ("list_spacing", ["--list-spacing", "preserve"], "preserve")]
+
+
+def run_cli(argv, cwd):
+    import flowmark.cli as cli
+    with in_dir(cwd), captured() as (out, err):
+        rc = cli.main(argv)
+    return rc, out.getvalue(), err.getvalue()
+
+
+def effect_same_as_flag(violations, kinds):
+    """every formatting key accepted in a config file has the effect of the equivalent command-line flag on the output
+    bytes (end to end, nothing wrapped) -- and an effect at all"""
+    n = 0
+    for k, (setting, argv, val) in enumerate(EQUIV):
+        kind = kinds[k % len(kinds)]
+        d = scratch_dir("vf-c16-")
+        try:
+            outs = {}
+            for how in ("flag", "config", "neither"):
+                w = os.path.join(d, how)
+                os.makedirs(w)
+                open(os.path.join(w, "doc.md"), "w").write(SENSITIVE_DOC)
+                if how == "config":
+                    write_config(w, kind if kind != "parent-flat" else "flat-snake", {setting: val})
+                rc, out, err = run_cli((argv if how == "flag" else []) + ["doc.md"], w)
+                outs[how] = (rc, out)
+                n += 1
+            if outs["flag"] != outs["config"] or outs["flag"][0] != 0:
+                violations.append({"clause": "config_has_effect_of_flag", "input": {"setting": setting, "value": val, "kind": kind, "flag": argv},
+                                   "got": outs["config"][1][:300], "want": outs["flag"][1][:300]})
+            elif outs["flag"] == outs["neither"] and val not in ("preserve",):
+                violations.append({"clause": "sensitive_document", "input": {"setting": setting, "value": val},
+                                   "got": "the probe document does not react to this setting (layer defect, not a finding)"})
+        finally:
+            shutil.rmtree(d, ignore_errors=True)
+    return n
+
+
 def expected(setting, flag, conf, auto, flag_default=False):
     argv, fval, cval, default, _ = S[setting]
     if auto and setting in AUTO_LOCKED:
@@ -191,8 +234,10 @@ def bounded(tier, seed):
             violations.append({"clause": "unknown_key_warns", "input": {}, "got": err[:200]})
     finally:
         shutil.rmtree(d, ignore_errors=True)
+    evals += effect_same_as_flag(violations, ["flat-snake", "sectioned-kebab", "pyproject-kebab"])
     return {"evaluations": evals, "distinct_nontrivial": len(distinct), "violations": violations, "samples": samples,
-            "rule": "13 settings x {flag given, not} x {config sets, not} x {--auto, not} (+ flag passed with its default value) "
+            "rule": "(also, end to end on the output bytes of an option-sensitive document: each formatting key set in a config file "
+                    "gives the same output as the equivalent flag, and a different one from no setting) 13 settings x {flag given, not} x {config sets, not} x {--auto, not} (+ flag passed with its default value) "
                     "x config kind {.flowmark.toml flat snake, flowmark.toml sectioned kebab, pyproject [tool.flowmark], parent "
                     "directory with a section-less pyproject nearer}; quick rotates the kind, thorough takes all; observed at the "
                     "kwargs reaching reformat_files / the FileResolverConfig built; distinct = distinct (case, effective value)",
